@@ -24,6 +24,7 @@ def answerLineBody (line : String) : String :=
       | "iterq" => BodyE.iterq kv
       | "own" => BodyE.own kv
       | "heap" => BodyE.heap kv
+      | "serde" => BodyE.serde kv
       | _ => "n/a"
     s!"{seq} {body}"
   | _ => "bad-line"
